@@ -4,6 +4,8 @@ package verifsim
 
 import (
 	"fmt"
+	"os"
+	"runtime"
 	"strconv"
 	"time"
 
@@ -12,6 +14,8 @@ import (
 
 // Hooks for instrumented builds: every simsync.Yield in a rewritten authservice file becomes a
 // scheduling point of the current simulator; goroutines started by rewritten code become tasks.
+
+var dbgUnreg = os.Getenv("VERIF_DBG_UNREG") != ""
 
 var hookSim *Sim
 var posNames [4096]string
@@ -41,8 +45,18 @@ func hookYield(pos int) {
 	if pos >= 0 && pos < len(posNames) {
 		name = posNames[pos]
 	}
-	t := s.cur
-	s.Yield(name)
+	// identity by goroutine: a goroutine of instrumented code that was woken by a timer, a channel or a file event
+	// (the CA watcher) runs while "current task" still names whoever ran before it
+	t := s.taskOfGoroutine(goid())
+	if t == nil {
+		if dbgUnreg {
+			buf := make([]byte, 3000)
+			n := runtime.Stack(buf, false)
+			fmt.Fprintf(os.Stderr, "UNREGISTERED goroutine at %s (cur=%v):\n%s\n", name, s.cur != nil && true, buf[:n])
+		}
+		t = s.cur
+	}
+	s.YieldAs(t, name)
 	s.cur = t
 }
 
@@ -80,8 +94,18 @@ func hookGo(f func()) {
 		f()
 	}
 	s := getHookSim()
-	if s == nil || !s.isOn() {
+	if s == nil {
 		go g()
+		return
+	}
+	if !s.isOn() {
+		// started in a sequential phase (e.g. a file watcher started by the first request): it runs at once, but it
+		// is a task with an identity of its own for the concurrent phases that follow
+		t := s.NewTask(s.nextBg(), "bg")
+		go func() {
+			setGid(t, goid())
+			g()
+		}()
 		return
 	}
 	t := s.NewTask(s.nextBg(), "bg")
